@@ -12,13 +12,13 @@ import (
 // ---- numeric definition --------------------------------------------------------
 
 type vNumDef struct {
-	typ, format      string // typ in {integer, number}
-	hasMax, hasMin   bool
-	max, min         float64
-	exMax, exMin     bool
-	enumN            int      // 0..2 enum values
-	enum             [2]int   // indices into {1,2,3}
-	required         bool
+	typ, format    string // typ in {integer, number}
+	hasMax, hasMin bool
+	max, min       float64
+	exMax, exMin   bool
+	enumN          int    // 0..2 enum values
+	enum           [2]int // indices into {1,2,3}
+	required       bool
 }
 
 var vEnumNums = []float64{1, 2, 3}
